@@ -130,3 +130,95 @@ class Pre:
             xn, _, _, _ = erk_step(tab, f, xs[-1], t, h)
             xs.append(xn)
         return xs
+
+
+class PreDC(Pre):
+    """pre-state of DirectCollocation.add_constraints (what add_variables / transcribe establish), symbolic N"""
+
+    def __init__(self, M=2, degree=2, scheme="radau", **kw):
+        import rockit
+        from rockit import Ocp, DirectCollocation
+        from rockit.direct_method import OptiWrapper
+        import rockit.sampling_method as sm, rockit.direct_collocation as dcm, rockit.stage as st
+        loops.install_builtins(sm, dcm, st)
+        contract.setup_loops()
+        c = ctx()
+        nx, nu, np_, npc, npcp, nv, nvc, nvcp = 2, 1, 1, 1, 1, 1, 1, 1
+        self.N = N = fresh_int("N")
+        c.assume((N >= 1).z)
+        self.M, self.degree = M, degree
+        self.T = unknown("horizon_T", positive=True)
+        self.t0 = unknown("horizon_t0")
+        ocp = self.ocp = Ocp(T=self.T, t0=self.t0)
+        sx = unknown("scale_x", nx, 1, positive=True)
+        su = unknown("scale_u", nu, 1, positive=True)
+        self.x = ocp.state(nx, scale=sx)
+        self.u = ocp.control(nu, scale=su)
+        self.p = ocp.parameter(np_)
+        self.pc = ocp.parameter(npc, grid="control")
+        self.pcp = ocp.parameter(npcp, grid="control", include_last=True)
+        self.v = ocp.variable(nv)
+        self.vc = ocp.variable(nvc, grid="control")
+        self.vcp = ocp.variable(nvcp, grid="control", include_last=True)
+        self.sym_atoms = dict(x=self.x, u=self.u, t=ocp.t, p=self.p, pc=self.pc, pcp=self.pcp, v=self.v, vc=self.vc, vcp=self.vcp)
+        self.ode_deps = ["x", "u", "t", "p", "pc", "pcp", "v", "vc", "vcp"]
+        sder = unknown("scale_der", nx, 1, positive=True)
+        ocp.set_der(self.x, ufun("f", nx, [self.sym_atoms[a] for a in self.ode_deps]), scale=sder)
+        meth = self.meth = DirectCollocation(N=N, M=M, degree=degree, scheme=scheme)
+        ocp._method = meth
+        opti = self.opti = OptiWrapper(ocp)
+        meth.opti = opti
+        contract.use_opti(opti)
+        self.scale_x = ocp._scale_x
+        self.scale_der = ocp._scale_der_x
+        Xw = opti.family("X", nx)
+        self.Xf = lambda k: ca.MX(self.scale_x) * Xw(k)
+        meth.X = SymList(N + 1, self.Xf, "X")
+        Uw = opti.family("U", nu)
+        self.Uf = lambda k: ca.MX(ocp._scale_u) * Uw(k)
+        meth.U = SymList(N, self.Uf, "U")
+        meth.Q = SymList(N + 1, lambda k: ca.DM.zeros(0) if k == 0 else None, "Q")
+        # helper states: start state of every integration interval, collocation states
+        Xs = [None] + [opti.family("Xs%d" % i, nx) for i in range(1, M)]
+        Xcw = [opti.family("Xc%d" % i, nx * degree) for i in range(M)]
+        sxd = ca.repmat(ca.MX(self.scale_x), 1, degree)
+
+        def Xc_at(k):
+            out = []
+            for i in range(M):
+                x0 = self.Xf(k) if i == 0 else ca.MX(self.scale_x) * Xs[i](k)
+                xc = sxd * ca.reshape(Xcw[i](k), nx, degree)
+                out.append(ca.horzcat(x0, xc))
+            return out
+        self.Xc_at = Xc_at
+        meth.Xc = SymList(N, Xc_at, "Xc")
+        meth.Zc = SymList(N, lambda k: [ca.MX(0, degree) for i in range(M)], "Zc")
+        meth.xr = SymList(N, lambda k: [Xc_at(k)[i][:, 1:] for i in range(M)], "xr")
+        meth.zr = SymList(N, lambda k: [ca.MX(0, degree) for i in range(M)], "zr")
+        meth.P = [opti.parameter(np_, 1)]
+        self.Pcf = opti.family("Pc", npc, role="p")
+        self.Pcpf = opti.family("Pcp", npcp, role="p")
+        meth.P_control = [SymList(N, self.Pcf, "P_control")]
+        meth.P_control_plus = [SymList(N + 1, self.Pcpf, "P_control_plus")]
+        meth.V = opti.variable(nv, 1)
+        self.Vcf = opti.family("Vc", nvc)
+        self.Vcpf = opti.family("Vcp", nvcp)
+        meth.V_control = [SymList(N, self.Vcf, "V_control")]
+        meth.V_control_plus = [SymList(N + 1, self.Vcpf, "V_control_plus")]
+        meth.V_states = []
+        meth.T, meth.t0 = ca.MX(self.T), ca.MX(self.t0)
+        meth.t0_local = SymList(N + 1, lambda k: None, "t0_local")
+        meth.T_local = SymList(N, lambda k: None, "T_local")
+        tg = z3.Function("tg", z3.IntSort(), z3.RealSort())
+        self.tg = lambda k: tg(k.z if isinstance(k, SymInt) else z3.IntVal(int(k)))
+        meth.control_grid = ca.LVec(N + 1, lambda k: self.tg(k))
+
+        def igrid(k):
+            a, b = self.tg(k), self.tg(unwrap_int(k + 1))
+            pts = [a if i == 0 else a + z3.RealVal(i) * ((b - a) / z3.RealVal(M)) for i in range(M)]
+            if k == N - 1:
+                pts.append(b)
+            return ca.MX._raw(len(pts), 1, pts)
+        meth.integrator_grid = SymList(N, igrid, "integrator_grid")
+        for k_ in ():
+            pass
